@@ -32,6 +32,7 @@ class Relation:
     kind = 'corr'          # 'corr' | 'monitor'
     requires = []          # Coq modules (under MP.) the case terms need
     describe = ''
+    shard = None
 
     def cases(self, ctx):
         return []
@@ -99,7 +100,7 @@ def run_relation(rel, ctx, runner, extra_inputs=()):
             nontrivial_keys.add(k)
         for lab, inc in rel.stats(inp, obs).items():
             stats[lab] = stats.get(lab, 0) + inc
-    failing, err = runner.run_cases(rel.name, rel.requires, terms)
+    failing, err = runner.run_cases(rel.name, rel.requires, terms, shard=rel.shard)
     fails = [(inputs[i], obs_list[i]) for i in failing]
     return dict(name=rel.name, kind=rel.kind, evaluations=len(inputs), corpus=n_corpus,
                 distinct=len(keys), distinct_nontrivial=len(nontrivial_keys), stats=stats,
